@@ -510,6 +510,8 @@ def build_units(conn):
     flight_done()
     if q.get("retry"):
         rscid = R.fork("rscid").bytes(q["retry_scid_len"])
+        if q.get("retry_scid_hex") is not None:
+            rscid = bytes.fromhex(q["retry_scid_hex"])
         token = R.fork("rtoken").bytes(q["token_len"])
         rp = Q.retry_packet(C.scid, rscid, token, odcid, unused=R.fork("runused").below(16))
         dgrams.append(rp)
